@@ -212,22 +212,27 @@ def valid_value(rng, typ, P=None):
     return rng.choice('ASQMWD')
 
 
-def random_structure(rng, n_ids=None, with_nn=False):
+# structural cases use types whose values behave alike in every loader, so that a structural key is about structure
+STRUCT_TYPES = ['Integer', 'String', 'Number', 'Time_Period']
+
+
+def random_structure(rng, n_ids=None, with_nn=False, types=None):
     n_ids = rng.randint(0, 3) if n_ids is None else n_ids
     comps = []
+    idt = types or ['Integer', 'String', 'Date', 'Time_Period', 'Boolean', 'Duration', 'Time', 'Number']
     for i in range(n_ids):
-        comps.append(comp('Id_%d' % (i + 1), rng.choice(['Integer', 'String', 'Date', 'Time_Period', 'Boolean', 'Duration', 'Time', 'Number'][:rng.choice([2, 4, 8])]), 'Identifier'))
+        comps.append(comp('Id_%d' % (i + 1), rng.choice(idt[:rng.choice([2, 4, len(idt)])]), 'Identifier'))
     for i in range(rng.randint(1, 3)):
-        comps.append(comp('Me_%d' % (i + 1), rng.choice(TYPES), 'Measure', nullable=not (with_nn and i == 0)))
+        comps.append(comp('Me_%d' % (i + 1), rng.choice(types or TYPES), 'Measure', nullable=not (with_nn and i == 0)))
     if rng.random() < 0.4:
-        comps.append(comp('At_1', rng.choice(TYPES), 'Attribute', nullable=rng.random() < 0.7))
+        comps.append(comp('At_1', rng.choice(types or TYPES), 'Attribute', nullable=rng.random() < 0.7))
     return comps
 
 
 def _same_key_respelled(rng, typ, text):
     """another spelling of the same value (duplicates must be found on denoted values)"""
     if typ == 'Integer':
-        return rng.choice([text + '.0', ' ' + text, '+' + text if not text.startswith('-') else text])
+        return rng.choice([text + '.0', ' ' + text, text + ' '])
     if typ == 'Time_Period' and 'Q' in text:
         return text.replace('Q', '-Q')
     if typ == 'Time_Period' and 'M' in text and '-' not in text:
@@ -243,9 +248,9 @@ def _same_key_respelled(rng, typ, text):
 def structural_case(rng, kind):
     """A random well-formed table with one injected structural violation (or none for kind 'valid')."""
     n_ids = 0 if kind in ('no-ids-two-rows', 'no-ids-one-row', 'no-ids-zero-rows') else rng.randint(1, 3)
-    struct = random_structure(rng, n_ids, with_nn=(kind in ('missing-non-nullable-column', 'null-in-non-nullable', 'missing-non-nullable-column-zero-rows')))
+    struct = random_structure(rng, n_ids, with_nn=(kind in ('missing-non-nullable-column', 'null-in-non-nullable', 'missing-non-nullable-column-zero-rows')), types=STRUCT_TYPES)
     if kind in ('missing-nullable-column',):
-        struct = [c for c in struct if c['role'] != 'Attribute'] + [comp('At_9', rng.choice(TYPES), 'Attribute', True)]
+        struct = [c for c in struct if c['role'] != 'Attribute'] + [comp('At_9', rng.choice(STRUCT_TYPES), 'Attribute', True)]
     ids = [c for c in struct if c['role'] == 'Identifier']
     nrows = {'no-ids-two-rows': rng.randint(2, 4), 'no-ids-one-row': 1, 'no-ids-zero-rows': 0, 'zero-rows': 0,
              'missing-non-nullable-column-zero-rows': 0}.get(kind, rng.randint(1, 5))
